@@ -130,9 +130,32 @@ fn clocks_case(rem: Duration, inc: Duration, mtg: Option<u32>, overhead: usize, 
         assert!(HALF_D == avail);      // the first x0.5 is taken of exactly "remaining after overhead"
         assert!(hard <= HALF_R);       // and Lemma A bounds that product by half (+ f32 slack) of its argument
     }
-    // native replay runs the real mul_f32: the end-to-end statement itself
+    // native replay runs the real mul_f32: the end-to-end statement itself, on the solver's tuple and - because the solver's
+    // tuple lives in the contract world, where huge clocks hide millisecond effects behind the f32 slack - on the same tuple
+    // with the clock scaled down to GUI-sized values (the solver's verdict says the allocation logic is off; these find a witness)
     #[cfg(test)]
-    assert!(at_most_half(ns_of(hard), ns_of(avail)));
+    {
+        assert!(at_most_half(ns_of(hard), ns_of(avail)));
+        let ovh = Duration::from_millis(overhead as u64);
+        for rem_ms in [2 * overhead as u64, 2 * overhead as u64 + 1, 1000, 3000, 40, 60_000, 600_000] {
+            for inc_ms in [inc.as_millis() as u64, 0, 2000, 5000] {
+                let r = Duration::from_millis(rem_ms);
+                if ovh > r || ovh > r - ovh { continue; }
+                let i = Duration::from_millis(inc_ms);
+                let c2 = if white {
+                    Clocks { white_clock: Some(r), black_clock: other, white_increment: if inc_given { Some(i) } else { None }, black_increment: None, moves_to_go: mtg }
+                } else {
+                    Clocks { white_clock: other, black_clock: Some(r), white_increment: None, black_increment: if inc_given { Some(i) } else { None }, moves_to_go: mtg }
+                };
+                let (ts2, _c2) = TimeStrategy::new(&game, &TimeControl::Clocks(c2), &options);
+                let (s2, h2) = ta::stops(&ts2);
+                if !(s2 <= h2 && at_most_half(ns_of(h2), ns_of(r - ovh))) {
+                    println!("REPLAY-CASE {{\"remaining_ms\":{},\"increment_ms\":{},\"moves_to_go\":{:?},\"overhead_ms\":{},\"white\":{},\"soft\":\"{:?}\",\"hard\":\"{:?}\"}}", rem_ms, inc_ms, mtg, overhead, white, s2, h2);
+                    panic!("time allocation violates the property for a scaled-down clock");
+                }
+            }
+        }
+    }
     std::mem::forget(ts);
     std::mem::forget(ctl);
     std::mem::forget(game);
